@@ -214,3 +214,14 @@ class SeqIter:
 
     def __init__(self, kind, data):
         self.kind, self.data = kind, data
+
+
+class Opaque:
+    """a value about which nothing is known (result of havocking something the engine cannot describe);
+    any use raises Unsupported"""
+
+    def __init__(self, why):
+        self.why = why
+
+    def __repr__(self):
+        return "Opaque(%s)" % self.why
